@@ -14,7 +14,7 @@
    SetSpliceCountdown, SetTransportPrivateData, SetAdaptationFieldExtension, Packet.SetAdaptationField) are
    covered by step_refines and therefore by the history theorem; nothing is _partial there. *)
 From Gots Require Import Base.Prelude Model.Pcr Model.AF Model.AFfn Spec.AFSpec
-  Proofs.AFLists Proofs.PcrBytes Proofs.AFHistory Proofs.AFGetters Proofs.AFExamples.
+  Proofs.AFLists Proofs.PcrBytes Proofs.AFHistory Proofs.AFGetters Proofs.AFExamples Proofs.AFTotal.
 
 (* one call: Ok => the bytes are the serialisation of the updated logical value (same header, same payload,
    same adaptation_field_length); Err => the operation cannot be honoured (and the packet is untouched, see
@@ -99,6 +99,15 @@ Print Assumptions C03_pcr_layout.
 Theorem C03_pcr_roundtrip : forall v, v < PcrMax -> pcr_dec (pcr_enc v) = v.
 Proof. exact pcr_dec_enc. Qed.
 Print Assumptions C03_pcr_roundtrip.
+
+(* for C05: on ANY 188 bytes no setter, getter or function-style accessor panics (repaired code) *)
+Theorem C03_total_any_packet : forall p o, length p = 188%nat -> op_total o ->
+  AF.step p o <> Panic /\ AF.step p o <> Diverge.
+Proof. exact step_total. Qed.
+Print Assumptions C03_total_any_packet.
+Theorem C03_getters_total_any_packet : forall p, length p = 188%nat -> getters_total p.
+Proof. exact getters_total_any. Qed.
+Print Assumptions C03_getters_total_any_packet.
 
 (* non-vacuity: a populated field next to a payload satisfies the hypotheses, and a history that removes
    populated private data, refills to capacity and is refused one byte later behaves as stated *)
